@@ -20,9 +20,9 @@ RULE = ('names (24, incl. spaces, newlines, %, leading -, non-ASCII, 255 bytes) 
         '--trash-dir) x sort (date,path,none) x scope (cwd=dir, cwd=ancestor, cwd=/, explicit path) x history (6); quick tier '
         'restricts names to 8 (incl. trailing blank / tab / newline inside / %XX / leading dash / non-ASCII / 255 bytes), scopes to 2 and histories to 3; non-trivial = listing printed and index chosen; distinct = '
         'outcome class x all dimensions')
-NAMES = ['a', 'a b', ' lead', 'trail ', 'a\nb', 'a\rb', 'tab\t', '%41', 'a%', '%', '-x', '--', 'é', '日本', '.hidden',
+NAMES = ['a.trashinfo.bak', 'a', 'a b', ' lead', 'trail ', 'a\nb', 'a\rb', 'tab\t', '%41', 'a%', '%', '-x', '--', 'é', '日本', '.hidden',
          'a.trashinfo', '*?[', '=', '#', '+', '&;', '"\'', '\\', 'L' * 255]
-QNAMES = ['a', 'trail ', 'a\nb', '%41', '-x', '日本', 'tab\t', 'L' * 255]
+QNAMES = ['a', 'trail ', 'a\nb', '%41', '-x', '日本', 'tab\t', 'L' * 255, 'a.trashinfo.bak']
 LAYOUTS = ['home', 'top-sticky', 'top-alt', 'trash-dir']
 SORTS = ['date', 'path', 'none']
 SCOPES = ['dir', 'ancestor', 'root', 'path-arg']
